@@ -211,6 +211,14 @@ impl<'tcx, 'a> Cx<'tcx, 'a> {
             }
             _ => {}
         }
+        if matches!(t.kind(), TyKind::Ref(..) | TyKind::RawPtr(..)) {
+            if let Const::Val(ConstValue::Scalar(rustc_middle::mir::interpret::Scalar::Ptr(ptr, _)), _) = c {
+                let (prov, _off) = ptr.prov_and_relative_offset();
+                if let Some(rustc_middle::mir::interpret::GlobalAlloc::Static(sd)) = self.tcx.try_get_global_alloc(prov.alloc_id()) {
+                    let _ = write!(o, ",\"static\":{}", esc(&def_path(self.tcx, sd)));
+                }
+            }
+        }
         if let Const::Unevaluated(u, _) = c {
             let _ = write!(o, ",\"def\":{}", esc(&def_path(self.tcx, u.def)));
             if u.promoted.is_some() {
@@ -369,7 +377,7 @@ fn binop(op: BinOp) -> String {
 
 fn dump_body<'tcx>(tcx: TyCtxt<'tcx>, did: DefId, out: &mut String) {
     let dk = tcx.def_kind(did);
-    let body: &Body<'tcx> = tcx.optimized_mir(did);
+    let body: &Body<'tcx> = if matches!(dk, DefKind::Static { .. }) { tcx.mir_for_ctfe(did) } else { tcx.optimized_mir(did) };
     let tenv = TypingEnv::post_analysis(tcx, did);
     let cx = Cx { tcx, body, did, tenv };
     let _ = cx.did;
@@ -468,11 +476,12 @@ fn dump_blocks<'tcx, 'a>(cx: &Cx<'tcx, 'a>, out: &mut String) {
                 StatementKind::Assign(b) => {
                     let (p, rv) = &**b;
                     Some(format!(
-                        "{{\"k\":\"assign\",\"place\":{},\"rv\":{},\"line\":{},\"exp\":{}}}",
+                        "{{\"k\":\"assign\",\"place\":{},\"rv\":{},\"line\":{},\"exp\":{},\"expk\":{}}}",
                         cx.place(p),
                         cx.rvalue(rv, sp),
                         line_of(tcx, sp),
-                        sp.from_expansion()
+                        sp.from_expansion(),
+                        esc(&expk(sp))
                     ))
                 }
                 StatementKind::SetDiscriminant { place, variant_index } => Some(format!(
@@ -543,7 +552,7 @@ fn dump_blocks<'tcx, 'a>(cx: &Cx<'tcx, 'a>, out: &mut String) {
                 let as_: Vec<String> = args.iter().map(|a| cx.operand(&a.node, sp)).collect();
                 let atys: Vec<String> = args.iter().map(|a| esc(&ty_str(a.node.ty(body, tcx)))).collect();
                 format!(
-                    "{{\"k\":\"call\",\"fn\":{},\"args\":[{}],\"arg_tys\":[{}],\"dest\":{},\"t\":{},\"unwind\":{},\"line\":{},\"exp\":{},\"span\":{}}}",
+                    "{{\"k\":\"call\",\"fn\":{},\"args\":[{}],\"arg_tys\":[{}],\"dest\":{},\"t\":{},\"unwind\":{},\"line\":{},\"exp\":{},\"span\":{},\"expk\":{}}}",
                     f,
                     as_.join(","),
                     atys.join(","),
@@ -552,7 +561,8 @@ fn dump_blocks<'tcx, 'a>(cx: &Cx<'tcx, 'a>, out: &mut String) {
                     unwind_str(unwind),
                     line,
                     exp,
-                    esc(&span_str(tcx, sp))
+                    esc(&span_str(tcx, sp)),
+                    esc(&expk(sp))
                 )
             }
             TerminatorKind::Assert { cond, expected, msg, target, unwind } => {
@@ -574,7 +584,7 @@ fn dump_blocks<'tcx, 'a>(cx: &Cx<'tcx, 'a>, out: &mut String) {
                     other => format!("{{\"kind\":\"Other\",\"text\":{}}}", esc(&format!("{:?}", other))),
                 };
                 format!(
-                    "{{\"k\":\"assert\",\"cond\":{},\"expected\":{},\"msg\":{},\"t\":{},\"unwind\":{},\"line\":{},\"exp\":{},\"span\":{}}}",
+                    "{{\"k\":\"assert\",\"cond\":{},\"expected\":{},\"msg\":{},\"t\":{},\"unwind\":{},\"line\":{},\"exp\":{},\"span\":{},\"expk\":{}}}",
                     cx.operand(cond, sp),
                     expected,
                     m,
@@ -582,7 +592,8 @@ fn dump_blocks<'tcx, 'a>(cx: &Cx<'tcx, 'a>, out: &mut String) {
                     unwind_str(unwind),
                     line,
                     exp,
-                    esc(&span_str(tcx, sp))
+                    esc(&span_str(tcx, sp)),
+                    esc(&expk(sp))
                 )
             }
             TerminatorKind::FalseEdge { real_target, .. } => format!("{{\"k\":\"goto\",\"t\":{}}}", real_target.as_u32()),
@@ -599,6 +610,37 @@ fn unwind_str(u: &rustc_middle::mir::UnwindAction) -> String {
     match u {
         rustc_middle::mir::UnwindAction::Cleanup(b) => format!("{}", b.as_u32()),
         _ => "-1".to_string(),
+    }
+}
+
+/// outermost macro expansion the span comes from: "" (plain code), "bang:name:local|ext", "derive:Name", "attr:name", "desugar:Kind"
+fn expk(sp: Span) -> String {
+    if !sp.from_expansion() {
+        return String::new();
+    }
+    let mut last = None;
+    for e in sp.macro_backtrace() {
+        last = Some(e);
+    }
+    let e = match last {
+        Some(e) => e,
+        None => sp.ctxt().outer_expn_data(),
+    };
+    match e.kind {
+        rustc_span::ExpnKind::Macro(mk, name) => {
+            let k = match mk {
+                rustc_span::MacroKind::Bang => "bang",
+                rustc_span::MacroKind::Derive => "derive",
+                rustc_span::MacroKind::Attr => "attr",
+            };
+            let loc = match e.macro_def_id {
+                Some(d) if d.is_local() => "local",
+                _ => "ext",
+            };
+            format!("{}:{}:{}", k, name, loc)
+        }
+        rustc_span::ExpnKind::Desugaring(d) => format!("desugar:{:?}", d),
+        other => format!("other:{:?}", other).chars().take(40).collect(),
     }
 }
 
@@ -758,10 +800,10 @@ impl Callbacks for Dump {
         for ldid in tcx.hir_body_owners() {
             let did = ldid.to_def_id();
             let dk = tcx.def_kind(did);
-            if !matches!(dk, DefKind::Fn | DefKind::AssocFn | DefKind::Closure) {
+            if !matches!(dk, DefKind::Fn | DefKind::AssocFn | DefKind::Closure | DefKind::Static { .. }) {
                 continue;
             }
-            if !tcx.is_mir_available(did) {
+            if !matches!(dk, DefKind::Static { .. }) && !tcx.is_mir_available(did) {
                 continue;
             }
             if n > 0 {
